@@ -89,6 +89,9 @@ func c01Alphabet(tier string) []seqSym {
 		sy("JSET", "k1", "a", "y", "str"),
 		sy("JSET", "k2", "c", "v", "true"),
 		sy("JSET", "k1", "b", "z", "7", "STR"),
+		sy("JSET", "k2", "c", "v", "true", "STR"), // the text of a literal, stored as a string
+		sy("JSET", "k1", "b", "properties.q", "null", "STR"),
+		sy("JSET", "k2", "c", "w", "false", "RAW"),
 		sy("JDEL", "k1", "a", "y"),
 		// argument-shape errors: must change nothing
 		sy("SET", "k1", "a"),
@@ -113,7 +116,7 @@ func c01Alphabet(tier string) []seqSym {
 func c01Probes() []seqSym {
 	var p []seqSym
 	for _, k := range []string{"k1", "k2", "k3"} {
-		p = append(p, sy("TYPE", k), sy("SCAN", k))
+		p = append(p, sy("TYPE", k), sy("SCAN", k), sy("SCAN", k, "DESC", "IDS"), sy("SCAN", k, "MATCH", "a*", "MATCH", "b*", "DESC", "IDS"), sy("SCAN", k, "MATCH", "b*", "MATCH", "a*", "IDS"))
 		for _, id := range []string{"a", "b"} {
 			p = append(p, sy("GET", k, id), sy("GET", k, id, "WITHFIELDS"), sy("EXISTS", k, id), sy("TTL", k, id),
 				sy("FGET", k, id, "f"), sy("FGET", k, id, "g"), sy("FEXISTS", k, id, "f"), sy("FEXISTS", k, id, "j"),
